@@ -74,15 +74,18 @@ func genC19(x *Ctx) *c19Scen {
 	shapes := []struct{ m, p string }{
 		{"GET", "/u/%s"}, {"GET", "/u/%s/sub/k%s"}, {"POST", "/u/%s"}, {"GET", "/v/t%s/items/%s"}, {"PUT", "/u/%s"},
 		{"GET", "/nowhere/%s"}, {"GET", "/u/doc/%s.json"}, {"GET", "/u/num/x%sy"}, {"UNLOCK", "/many/%s"}, {"COPY", "/many/%s"}, {"OPTIONS", "/u/%s"}, {"OPTIONS", "/v/t%s/items/%s"}, {"DELETE", "/v/t%s/items/%s"},
-		{"POST", "/x/form/%s"}, {"POST", "/x/nct/%s"}, {"GET", "/x/err/%s"}, {"POST", "/x/job/%s:cancel"}, {"GET", "/x/job/%s:cancel"}, {"GET", "/x/job/%s"},
+		{"GET", "/s/plain"}, {"GET", "/s/other"}, {"POST", "/x/form/%s"}, {"POST", "/x/nct/%s"}, {"GET", "/x/err/%s"}, {"POST", "/x/job/%s:cancel"}, {"GET", "/x/job/%s:cancel"}, {"GET", "/x/job/%s"},
 	}
 	tp.Repeat(2, maxSpecs, 650, func(i int) {
 		sh := shapes[tp.G(len(shapes))]
 		tok := fmt.Sprintf("T%dx", i+1)
 		r := c19Req{Spec: i, Method: sh.m, Tok: tok}
 		r.Path = fmt.Sprintf(sh.p, tok, tok)
-		if strings.Count(sh.p, "%s") == 1 {
+		switch strings.Count(sh.p, "%s") {
+		case 1:
 			r.Path = fmt.Sprintf(sh.p, tok)
+		case 0:
+			r.Path = sh.p
 		}
 		r.Path += "?q=" + tok
 		if tp.Chance(500) {
@@ -188,6 +191,9 @@ func c19BuildH(sc *c19Scen, history bool) *restful.Container {
 			prev, _ := req.Attribute("trail").(string)
 			req.SetAttribute("trail", prev+name+":"+req.QueryParameter("q")+";")
 			resp.AddHeader("X-Seen-"+name, req.QueryParameter("q"))
+			// a filter may publish a value as a path parameter (the map is handed out by reference): it
+			// belongs to this request alone
+			req.PathParameters()["via-"+name+"-"+req.QueryParameter("q")] = "1"
 			chain.ProcessFilter(req, resp)
 			y(sim.SiteFilterPost)
 		}
@@ -264,10 +270,15 @@ func c19BuildH(sc *c19Scen, history bool) *restful.Container {
 	ws4.Route(berr)
 	mk(ws4, ws4.POST("/job/{id}:cancel"))
 	mk(ws4, ws4.GET("/job/{id}"))
+	// routes without any template variable
+	ws5 := new(restful.WebService).Path("/s").Produces("application/json")
+	mk(ws5, ws5.GET("/plain"))
+	mk(ws5, ws5.GET("/other"))
 	addService(ws1)
 	addService(ws2)
 	addService(ws3)
 	addService(ws4)
+	addService(ws5)
 	return c
 }
 
